@@ -97,6 +97,29 @@ func vxFrameHarness(n int, pinType int) {
 		vx_reach("C08.frame.new-connection-id")
 	}
 	vx_assert("C08.frame.consumed-in-bounds", used >= 1 && used <= len(b))
+	// whatever was accepted lies within the ranges RFC 9000 allows (written down here independently of the parsers)
+	switch g := f.(type) {
+	case *MaxStreamsFrame:
+		vx_assert("C08.frame.range.max-streams", uint64(g.MaxStreamNum) <= 1<<60)
+	case *StreamsBlockedFrame:
+		vx_assert("C08.frame.range.streams-blocked", uint64(g.StreamLimit) <= 1<<60)
+	case *ResetStreamFrame:
+		vx_assert("C08.frame.range.reliable-size-at-most-final-size", g.ReliableSize <= g.FinalSize)
+	case *StreamFrame:
+		vx_assert("C08.frame.range.stream-end-offset", uint64(g.Offset)+uint64(len(g.Data)) <= 1<<62-1)
+	case *NewConnectionIDFrame:
+		vx_assert("C08.frame.range.retire-prior-to", g.RetirePriorTo <= g.SequenceNumber)
+		vx_assert("C08.frame.range.connection-id-length", g.ConnectionID.Len() >= 1 && g.ConnectionID.Len() <= 20)
+	case *AckFrame:
+		prev := protocol.PacketNumber(-1)
+		for i := len(g.AckRanges) - 1; i >= 0; i-- {
+			r := g.AckRanges[i]
+			vx_assert("C08.frame.range.ack-range-ordered", r.Smallest >= 0 && r.Smallest <= r.Largest)
+			// ascending from the last range, never adjacent or overlapping (a gap of at least one packet)
+			vx_assert("C08.frame.range.ack-ranges-disjoint", i == len(g.AckRanges)-1 || r.Smallest > prev+1)
+			prev = r.Largest
+		}
+	}
 	// encode
 	out, err := f.Append(nil, protocol.Version1)
 	if sf, isStream := f.(*StreamFrame); isStream && len(sf.Data) == 0 && !sf.Fin {
